@@ -1,7 +1,7 @@
 #!/bin/bash
 # confirm_seed.sh <Cxx>: in the scratch worktree /tmp/seed/<Cxx>, confirm that the seeded change
 #  (1) compiles, (2) leaves the repository's suite green, (3) makes demo.rs fail, and that demo.rs passes without it.
-id=$1; W=/tmp/seed/$id; O=/tmp/seed/$id-out
+id=$1; W=/tmp/seed/$id; O=/tmp/seed/$id-out${OUTSUF:-}
 cd $W || exit 2
 git checkout -q -- . ; rm -rf tests
 res() { echo "$1" >> $O/confirm.txt; }
